@@ -321,6 +321,7 @@ type Common struct {
 	Peer  *B
 	Other *C
 	Kids  []*A
+	VKids []A // struct values
 	Peers []*B
 	LL    [][]*A
 
@@ -477,8 +478,17 @@ func (m *Mutation) Set(s string) (interface{}, error) {
 }
 
 type fsBuilder struct {
-	r    *Run
-	objs map[*Node]interface{}
+	r     *Run
+	objs  map[*Node]interface{}
+	depth int
+	pendV []pendingV
+}
+
+// pendingV: the struct-value copies of a VKids slice are made when the outermost obj call is done, so that a copy
+// never captures a half-built object of a cyclic graph (the slices themselves exist from the start and are shared).
+type pendingV struct {
+	c     *Common
+	nodes []interface{}
 }
 
 // rep returns the representation of a node reached through an interface{}-typed slot.
@@ -513,6 +523,20 @@ func (b *fsBuilder) obj(n *Node) interface{} {
 	if o, ok := b.objs[n]; ok {
 		return o
 	}
+	b.depth++
+	defer func() {
+		if b.depth--; b.depth == 0 {
+			for len(b.pendV) > 0 {
+				p := b.pendV[0]
+				b.pendV = b.pendV[1:]
+				for i, e := range p.nodes {
+					if a, _ := b.obj(nodeOf(e)).(*A); a != nil {
+						p.c.VKids[i] = *a
+					}
+				}
+			}
+		}
+	}()
 	var o interface{}
 	var c *Common
 	switch n.Type {
@@ -555,6 +579,10 @@ func (b *fsBuilder) obj(n *Node) interface{} {
 	}
 	b.objs[n] = o
 	c.Xr, c.Xn = b.r, n
+	if l, ok := n.F["vkids"].([]interface{}); ok {
+		c.VKids = make([]A, len(l))
+		b.pendV = append(b.pendV, pendingV{c, l})
+	}
 	c.ID, _ = n.F["id"].(string)
 	c.I, _ = n.F["i"].(int)
 	c.S, _ = n.F["s"].(string)
